@@ -142,6 +142,8 @@ func c04Run(t *testing.T, rep *verifReport, caFixture string, ed bool) {
 			t.Fatalf("producer %s failed", k)
 		}
 	}
+	sideC, _ := sql.Open("sqlite3", env.CacheDBPath())
+	defer sideC.Close()
 	setStorageRow := func(tok string) {
 		env.DB().Exec("update expiring_signed_user_data set jws_data=? where username='alice' and type=1", tok)
 	}
@@ -181,6 +183,12 @@ func c04Run(t *testing.T, rep *verifReport, caFixture string, ed bool) {
 		{Name: "storage@GetSigned", Kind: "storage", Direct: func(tok string) bool {
 			setStorageRow(tok)
 			ok, data, err := env.GetSigned("alice", 1)
+			return err == nil && ok && data != ""
+		}},
+		{Name: "storage@GetSigned(offline-cache)", Kind: "storage", Direct: func(tok string) bool {
+			sideC.Exec("delete from expiring_signed_user_data where username='alice' and type=1")
+			sideC.Exec("insert into expiring_signed_user_data(username,type,jws_data,expiration_epoch,update_epoch) values('alice',1,?,?,?)", tok, time.Now().Add(time.Hour).Unix(), time.Now().Unix())
+			ok, data, err := env.GetSignedFrom("alice", 1, true)
 			return err == nil && ok && data != ""
 		}},
 	}
@@ -262,6 +270,13 @@ func c04Run(t *testing.T, rep *verifReport, caFixture string, ed bool) {
 		{"issuer-prefix", func(c verifClaims) { c["iss"] = verifIssuer + ".evil.example" }, sts, map[string]bool{"code": true, "access": true}},
 		{"audience", func(c verifClaims) { c["aud"] = []string{"https://evil.example:33443"} }, sts, map[string]bool{"code": true, "access": true}},
 		{"audience-empty", func(c verifClaims) { c["aud"] = []string{} }, sts, map[string]bool{"code": true, "access": true}},
+		{"audience-extends-port", func(c verifClaims) { c["aud"] = []string{verifIssuer + "0"} }, sts, map[string]bool{"code": true, "access": true}},
+		{"audience-extends-host", func(c verifClaims) { c["aud"] = []string{verifIssuer + ".attacker.test"} }, sts, map[string]bool{"code": true, "access": true}},
+		{"audience-extends-path", func(c verifClaims) { c["aud"] = []string{verifIssuer + "/other"} }, sts, map[string]bool{"code": true, "access": true}},
+		{"audience-is-prefix", func(c verifClaims) { c["aud"] = []string{verifIssuer[:len(verifIssuer)-1]} }, sts, map[string]bool{"code": true, "access": true}},
+		{"issuer-extends-path", func(c verifClaims) { c["iss"] = verifIssuer + "/other" }, sts, map[string]bool{"code": true, "access": true}},
+		{"issuer-is-prefix", func(c verifClaims) { c["iss"] = verifIssuer[:len(verifIssuer)-1] }, sts, map[string]bool{"code": true, "access": true}},
+		{"issuer-case", func(c verifClaims) { c["iss"] = strings.ToUpper(verifIssuer) }, sts, map[string]bool{"code": true, "access": true}},
 		{"audience-absent", func(c verifClaims) { delete(c, "aud") }, sts, map[string]bool{"code": true, "access": true}},
 		{"kind-token_type", func(c verifClaims) {
 			if _, ok := c["token_type"]; ok {
@@ -288,13 +303,13 @@ func c04Run(t *testing.T, rep *verifReport, caFixture string, ed bool) {
 			judge(c, a, tok, "claim:"+m.name, !m.reject[c.Kind], m.unspec[c.Kind] && !m.reject[c.Kind])
 		}
 		// subject mutants where the statement binds the subject
-		if c.Name == "storage@GetSigned" || c.Name == "cli@sendAuthDocument" {
+		if strings.HasPrefix(c.Name, "storage@GetSigned") || c.Name == "cli@sendAuthDocument" {
 			cl := a.Claims.clone()
 			cl["sub"] = "bob"
 			judge(c, a, verifMint(cl, ca), "claim:subject-other-user", false, false)
 		}
 		// signed expiry of a storage record that the unsigned column still calls valid
-		if c.Name == "storage@GetSigned" {
+		if strings.HasPrefix(c.Name, "storage@GetSigned") {
 			cl := a.Claims.clone()
 			cl["exp"] = now.Add(-time.Hour).Unix()
 			judge(c, a, verifMint(cl, ca), "claim:signed-expiry-past(column-valid)", false, false)
